@@ -249,6 +249,26 @@ E_ONE = z3.Const("E_ONE", ExprSort)
 K_NUM, K_SYM, K_POW, K_MUL, K_OTHER = 0, 1, 2, 3, 4
 
 
+CONST_NAMES = {}      # z3 term id -> python str: expressions whose printed form is a known constant
+
+
+def expr_str(term):
+    """str(expr): a constant when the expression was introduced with a known name (so that
+    every string predicate on it folds to a boolean), else the uninterpreted e_str(term)"""
+    n = CONST_NAMES.get(term.get_id())
+    if n is not None:
+        return z3.StringVal(n)
+    return e_str(term)
+
+
+def name_expr(it, expr, name):
+    """declare that the expression prints as `name` (an atomic Symbol)"""
+    CONST_NAMES[expr.term.get_id()] = name
+    it.assume(e_str(expr.term) == z3.StringVal(name))
+    it.assume(expr.term != E_ONE)
+    it.assume(e_kind(expr.term) == K_SYM)
+
+
 class SExpr(SV):
     """a sympy expression used as the symbolic part of a Unit (uninterpreted term)"""
 
@@ -305,13 +325,13 @@ class SExpr(SV):
         return NotImplemented
 
     def sv_str(self, it):
-        return e_str(self.term)
+        return expr_str(self.term)
 
     def sv_getattr(self, it, name):
         if name == "name":
-            return e_str(self.term)
+            return expr_str(self.term)
         if name == "__repr__" or name == "__str__":
-            return Intrinsic("expr." + name, lambda it_, s=self: e_str(s.term))
+            return Intrinsic("expr." + name, lambda it_, s=self: expr_str(s.term))
         if name == "is_Atom":
             return z3.Or(e_kind(self.term) == K_NUM, e_kind(self.term) == K_SYM)
         if name == "copy":
@@ -761,7 +781,7 @@ class UnytDomain:
         key = "_named_unit_" + name
         if not hasattr(it, key):
             u = make_unit(it, name, registry=self.default_registry(it))
-            it.assume(e_str(u.fields["expr"].term) == z3.StringVal(name))
+            name_expr(it, u.fields["expr"], name)
             if name in ("delta_degC", "delta_degF"):
                 u.fields["dimensions"] = SDim.base("temperature")
                 u.fields["base_offset"] = Fraction(0)
@@ -858,7 +878,7 @@ def track_unit(it, label, u):
     for n, x in zip(BASE_DIMS, u.fields["dimensions"].vec):
         if is_z3(x):
             it.ctx.track(label + ".dim." + n, x)
-    it.ctx.track(label + ".str", e_str(u.fields["expr"].term))
+    it.ctx.track(label + ".str", expr_str(u.fields["expr"].term))
 
 
 # ------------------------------------------------------------------------------ builtins
